@@ -80,6 +80,8 @@ def gen_scenario(rng, maxn=8):
         "dry": 1 if rng.random() < 0.05 else 0,
         "subs": [0 if rng.random() < 0.1 else 1 for _ in range(rng.randint(0, 40))],
     }
+    if rng.random() < 0.25:
+        scn["names"] = "short"      # single-letter names beside long names that hold those letters
     return scn
 
 
